@@ -13,7 +13,7 @@ CLAUSES = {
     "time-shift": "shifting start, stop, forcing frames and release times by the same number of whole steps leaves every trajectory unchanged",
 }
 BOUNDS = {
-    "quick": "6x6 ROMS grid, 3 levels, currents depending on level and frame (time interpolated, concrete values), 2 release rows at symbolic depths, one IBM death at a symbolic step, records every step or every 2nd step, sparse and dense layout, EF and RK2; shift by a symbolic number of steps in [-5, 5]; Nsteps 3",
+    "quick": "6x6 ROMS grid with a sloping bottom, 3 levels, currents depending on level and frame (time interpolated, concrete values), 2 release rows at symbolic depths, one IBM death at a symbolic step, records every step or every 2nd step, sparse and dense layout, EF and RK2; shift by a symbolic number of steps in [-5, 5]; Nsteps 3",
     "thorough": "Nsteps 4, RK4, all layout/scheme/period combinations, reordered rows sharing a release time",
 }
 ASSUMES = ["equality over the reals (bit-for-bit equality holds where both runs build the same operation sequence; rounding is outside the claim)"]
@@ -39,7 +39,8 @@ def scenarios(tier):
 def _files(W, tmp, t_first, uvals):
     """grid + forcing file with frames at steps -1, 1, 3, 5 (relative to t_first); u depends on level and frame"""
     ones = [[1] * L for _ in range(M)]
-    gs = romsfile.grid_vars(L, M, N, h=[[100] * L for _ in range(M)], mask=ones, pm=[[W.frac(1, 800)] * L for _ in range(M)], pn=[[W.frac(1, 800)] * L for _ in range(M)])
+    # sloping bottom: the level depths differ from cell to cell (a particle handed another cell's column gets other levels)
+    gs = romsfile.grid_vars(L, M, N, h=[[60 + 10 * i + 7 * j for i in range(L)] for j in range(M)], mask=ones, pm=[[W.frac(1, 800)] * L for _ in range(M)], pn=[[W.frac(1, 800)] * L for _ in range(M)])
     frames = [-1, 1, 3, 5]
     u = [[[[uvals[(f, k)] for i in range(L - 1)] for j in range(M)] for k in range(N)] for f in range(len(frames))]
     v = [[[[0 for i in range(L)] for j in range(M - 1)] for k in range(N)] for f in range(len(frames))]
@@ -97,7 +98,7 @@ def others(W, p):
     _files(W, tmp, T0, uv)
     xa, xb = W.frac(11, 4), W.frac(13, 5)  # horizontal start positions concrete (rounding forks are C02/C09's subject); depths symbolic
     za, zb = W.real("za", 0, 99), W.real("zb", 0, 99)
-    rb = W.idx(W.int("release_b", 0, 1))  # the observed particle may be released with or after the other one
+    rb = W.idx(W.int("release_b", 0, 2))  # the observed particle may be released with or (one or two steps, on and off a forcing frame) after the other one: alone, it then enters an empty model
     kstep = W.idx(W.int("killstep", 0, nsteps - 1))
     kflag = W.bool("killflag")
     rowA = [W.dt(T0), xa, 3, za]  # the "other" particle (pid 0): may be killed
